@@ -376,6 +376,70 @@ func TestScenes(t *testing.T) {
 	})
 }
 
+// ---------------------------------------------------------------------------
+// corner slivers: the octree prunes a cube when the centre value reaches the half diagonal. The
+// decisive surfaces clip a cube by a sliver at one corner with the normal along the cube diagonal
+// (the pruned cube's neighbours still emit their corner triangles: an open fan if the cube is lost).
+
+type sliverSolid struct {
+	n      v3.Vec
+	d      float64
+	c      v3.Vec
+	radius float64
+	bb     sdf.Box3
+}
+
+func (s sliverSolid) Evaluate(p v3.Vec) float64 {
+	return math.Max(s.n.Dot(p)-s.d, p.Sub(s.c).Length()-s.radius)
+}
+func (s sliverSolid) BoundingBox() sdf.Box3 { return s.bb }
+
+func TestCornerSlivers(t *testing.T) {
+	rec := ev.Get()
+	rapid.Check(t, func(t *rapid.T) {
+		r := rapid.SampledFrom([]renderer{renderers[1], renderers[1], renderers[0]}).Draw(t, "renderer")
+		n := rapid.IntRange(6, ev.Pick(16, 32)).Draw(t, "n")
+		c := calibrate(r, n)
+		N := len(c.nodes.X) - 1
+		maxL := 0
+		for (2<<maxL) <= N/2 && (2<<maxL) <= n/2 {
+			maxL++
+		}
+		L := rapid.IntRange(0, maxL).Draw(t, "level")
+		side := 1 << L
+		centre := v3.Vec{X: float64(n) / 2, Y: float64(n) / 2, Z: float64(n) / 2}
+		radius := 0.4 * float64(n)
+		var q, e v3.Vec
+		idx := func(l string, axis []float64) (float64, float64) {
+			// cubes of this level whose corner lies in the middle 40% of the box (well inside the ball)
+			lo, hi := int(math.Ceil(0.3*float64(n)/c.step/float64(side))), int(math.Floor(0.7*float64(n)/c.step/float64(side)))
+			if hi < lo {
+				hi = lo
+			}
+			a := rapid.IntRange(lo, hi).Draw(t, l+".cube-corner")
+			if a*side > len(axis)-1 {
+				a = (len(axis) - 1) / side
+			}
+			return axis[a*side], float64(1 - 2*rapid.IntRange(0, 1).Draw(t, l+".direction"))
+		}
+		q.X, e.X = idx("x", c.nodes.X)
+		q.Y, e.Y = idx("y", c.nodes.Y)
+		q.Z, e.Z = idx("z", c.nodes.Z)
+		eps := g.LogUniform(t, "sliver-depth-in-cube-sides", 1e-7, 1e-2)
+		nrm := e.MulScalar(1 / math.Sqrt(3))
+		s := sliverSolid{n: nrm, d: nrm.Dot(q) + eps*float64(side)*c.step, c: centre, radius: radius, bb: boxN(n)}
+		ts := render.ToTriangles(s, r.mk(n))
+		lo := v3.Vec{X: c.nodes.X[0], Y: c.nodes.Y[0], Z: c.nodes.Z[0]}
+		hi := v3.Vec{X: c.nodes.X[len(c.nodes.X)-1], Y: c.nodes.Y[len(c.nodes.Y)-1], Z: c.nodes.Z[len(c.nodes.Z)-1]}
+		desc := fmt.Sprintf("ball(%v at %v) cut by the half space that ends %g cube sides past the corner %v of a level-%d cube (side %d cells), normal %v", radius, centre, eps, q, L, side, nrm)
+		checkMesh(rec, t, func(key, msg string) {
+			rec.Violation(t, key, "%s renderer n=%d, %s: %s", r.name, n, desc, msg)
+		}, r.name, ts, c.step, true, lo, hi)
+		rec.Case(len(ts) > 0, ev.Key(r.name, n, desc), "corner-sliver:"+r.name, fmt.Sprintf("corner-sliver:level=%d", L), fmt.Sprintf("corner-sliver:depth=1e%d", int(math.Floor(math.Log10(eps)))))
+		rec.Sample("corner-sliver:"+r.name, map[string]any{"renderer": r.name, "n": n, "scene": desc, "triangles": len(ts)})
+	})
+}
+
 // TestAligned: boxes whose faces pass exactly through lattice nodes.
 func TestAligned(t *testing.T) {
 	rec := ev.Get()
